@@ -127,7 +127,15 @@ def r09_2(ctx):
         okb = any(cal and cal.name == "collect" and any("BTreeMap" in F.types[x]["s"] for x in cal.substs) for bi, t, cal in h.calls())
         r.ob("sort:build_sorted_query", okb, h.site, "build_sorted_query collects the parsed parameters into a BTreeMap")
         lps = for_loops(F.loop_form(h))
-        r.ob("sort:build_sorted_query:iterates-the-map", any(mentions(lp.source, lambda x: x[0] == "call" and x[1].rsplit("::", 1)[1] == "collect") for lp in lps), h.site, "and rebuilds the query by iterating it")
+        oki = any(mentions(lp.source, lambda x: x[0] == "call" and x[1].rsplit("::", 1)[1] == "collect") for lp in lps)
+        if not oki:
+            # `while let Some(..) = it.next()` over an iterator (peekable, ..) made from the map
+            hl = F.loop_form(h)
+            pvh = Prov(hl, copies=True)
+            for bi, t, cal in hl.calls():
+                if cal is not None and cal.name == "next" and hl.in_loop(bi) and mentions(pvh.operand(t["args"][0]), lambda x: x[0] == "call" and x[1].rsplit("::", 1)[1] == "collect"):
+                    oki = True
+        r.ob("sort:build_sorted_query:iterates-the-map", oki, h.site, "and rebuilds the query by iterating it")
         # both sides parse with the same function
         for fn in (f, h):
             okp = any(cal and cal.path.startswith("url::form_urlencoded::parse") or (cal and cal.key().endswith("form_urlencoded::parse")) for bi, t, cal in fn.calls())
